@@ -86,6 +86,18 @@ def _clear_member_fingerprints(target_dir):
             shutil.rmtree(os.path.join(fp, d), ignore_errors=True)
 
 
+def _stolen(d):
+    import json
+    out = []
+    for e in EXPECTED:
+        try:
+            with open(os.path.join(d, e + ".json")) as fh:
+                out += json.load(fh).get("stolen", [])
+        except Exception:
+            pass
+    return out
+
+
 def facts_dir(repo=REPO, verbose=False):
     """Return the directory with fact files for the current tree, extracting if needed."""
     os.makedirs(os.path.join(CACHE, "facts"), exist_ok=True)
@@ -120,6 +132,14 @@ def facts_dir(repo=REPO, verbose=False):
         if missing:
             shutil.rmtree(d, ignore_errors=True)
             raise SystemExit("sv: fact files missing after extraction: %s" % missing)
+        # In a cold target directory the compiler computes the hidden types of `impl Trait` / async fns by borrow-checking them, which
+        # consumes ("steals") the mir_built of those functions before the driver could copy it; with the incremental cache of a first
+        # run the hidden types are loaded instead. So: if any body was lost, run the members once more on the now warm directory.
+        if _stolen(d):
+            _clear_member_fingerprints(target)
+            r = _run_driver(repo, d, target)
+            if verbose:
+                sys.stderr.write("sv: second extraction pass (bodies were consumed by the compiler in the cold pass); still lost: %s\n" % _stolen(d)[:3])
         with open(ok, "w") as fh:
             fh.write("%.1f\n" % (time.time() - t0))
         # keep the cache small: drop all but the 16 newest fact dirs (several self-test workers may be reading theirs)
